@@ -11,7 +11,7 @@ use proptest::prelude::*;
 use serde::{Deserialize, Serialize};
 use std::collections::BTreeMap;
 
-pub const RULE: &str = "(D0) every protected name (16 keywords / inputs / constants / inf / infinity and every name of get_built_in_function_idents()) x 15 binding forms (plain, output, nested in parentheses / list / record / operator chain / conditional, function value; inside a lambda body or do-block; and as a do-block local / parameter that is read back - which must fail or give the bound value): the top-level forms must fail, and in all forms what typeof / to_string / field access observe of the name at top level, and the set of root names, must be unchanged. (D1) every sequence up to length 4 (thorough: 5 over a 27-template core) over an alphabet of statement templates on names a, b: bind, rebind, copy, nested assignment `a = (b = 5) + 1`, self-nested `a = (a = 1) + 1`, list-nested, partially failing `[a = 1, nope]`, `output a`, `output a = 1`, do-block shadowing / nested assignment inside a do-block / do-block returning a closure, functions whose parameters reuse a / b, calls, closures over a (reading it, rebinding it in a do-block) called at top level and from inside a function whose parameter is called a, assignment inside a lambda body (with parameters; anonymous without parameters, with and without captured names), failing statements, attempts to bind keywords, inputs, constants and built-in names; each statement is evaluated like a REPL line and compared with a bind-once reference model (success / failure, the whole root environment, values). (D2) random sessions of 5-40 generated statements with rebinding attempts and failing statements, checked with history invariants: snapshot monotonicity, no insert into the root environment for a key it holds (hook H2), reserved names never bound, root names are a subset of the names assigned in top-level position. (D3) sessions of 2-7 one-line statements (heap-valued bindings, nested bindings inside lines that fail later, rebinding attempts, allocating lines) typed into the interactive CLI on a pseudo-terminal; afterwards every name is printed and must show what the same lines give in-process. (D4) 6 ways of keeping an anonymous function whose body mentions an unbound name x 7 inner scopes that bind that name to the function value (do-block local, parameter, nested block, block inside a function / a via callback, failing block, via a second local) x 4 names: what the function does when reached through its container (call results and failures, display, self-equality) must be the same before and after, and the name must not appear at top level. Non-trivial = the history contains a (re)binding attempt on an already bound or reserved name, or a shadowing scope; distinct by the statement sequence.";
+pub const RULE: &str = "(D0) every protected name (16 keywords / inputs / constants / inf / infinity and every name of get_built_in_function_idents()) x 15 binding forms (plain, output, nested in parentheses / list / record / operator chain / conditional, function value; inside a lambda body or do-block; and as a do-block local / parameter that is read back - which must fail or give the bound value): the top-level forms must fail, and in all forms what typeof / to_string / field access observe of the name at top level, and the set of root names, must be unchanged. (D1) every sequence up to length 4 (thorough: 5 over a 27-template core) over an alphabet of statement templates on names a, b: bind, rebind, copy, nested assignment `a = (b = 5) + 1`, self-nested `a = (a = 1) + 1`, list-nested, partially failing `[a = 1, nope]`, `output a`, `output a = 1`, do-block shadowing / nested assignment inside a do-block / do-block returning a closure, functions whose parameters reuse a / b, calls, closures over a (reading it, rebinding it in a do-block) called at top level and from inside a function whose parameter is called a, assignment inside a lambda body (with parameters; anonymous without parameters, with and without captured names), failing statements, attempts to bind keywords, inputs, constants and built-in names; each statement is evaluated like a REPL line and compared with a bind-once reference model (success / failure, the whole root environment, values). (D2) random sessions of 5-40 generated statements with rebinding attempts and failing statements, checked with history invariants: snapshot monotonicity, no insert into the root environment for a key it holds (hook H2), reserved names never bound, root names are a subset of the names assigned in top-level position. (D3) sessions of 2-7 one-line statements (heap-valued bindings, nested bindings inside lines that fail later, rebinding attempts, allocating lines) typed into the interactive CLI on a pseudo-terminal; afterwards every name is printed and must show what the same lines give in-process. (D4) 6 ways of keeping an anonymous function whose body mentions an unbound name x 7 inner scopes that bind that name to the function value (do-block local, parameter, nested block, block inside a function / a via callback, failing block, via a second local) x 4 names: what the function does when reached through its container (call results and failures, display, self-equality) must be the same before and after, and the name must not appear at top level. (D5) `x = C[(x = V)]` and `output x = C[(x = V)]` for 38 contexts C (operands, list / record items, computed keys, list / record / argument spreads, index and field targets, conditions and branches, prefix / postfix operands, ??, pipelines, calls): the statement must be refused, x keeps the value of the inner binding and the root environment is never overwritten. Non-trivial = the history contains a (re)binding attempt on an already bound or reserved name, or a shadowing scope; distinct by the statement sequence.";
 pub const ASSUMPTIONS: &[&str] = &[
     "hook H2 (thread-local log of Environment::insert) is a monitor only; with the feature off the code is unchanged",
     "a statement that fails half-way may keep the bindings its already-evaluated inner assignments made (the statement only requires that bound names never change)",
@@ -322,7 +322,52 @@ pub enum Case {
     /// name NAME; an inner scope binds NAME to that function value. What the function does
     /// when reached through the container, and how it displays, must be the same before and after
     Leak { holder: u8, binder: u8, name: u8 },
+    /// D5: `x = CONTEXT[(x = V)]` - the right-hand side binds the very name being bound, from
+    /// inside each kind of sub-expression
+    SelfNested { context: u8 },
 }
+
+/// (right-hand side with the inner binding, source of the value the inner binding gives x)
+pub const SELF_NESTED: &[(&str, &str)] = &[
+    ("(x = 1) + 1", "1"),
+    ("1 + (x = 1)", "1"),
+    ("[x = 1]", "1"),
+    ("[0, ...(x = [1])]", "[1]"),
+    ("{a: (x = 1)}", "1"),
+    ("{[(x = \"k\")]: 1}", "\"k\""),
+    ("{...(x = {a: 1}), b: 2}", "{a: 1}"),
+    ("{a: 0, ...(x = {a: 1})}", "{a: 1}"),
+    ("max(1, (x = 2))", "2"),
+    ("max(...(x = [1, 2]))", "[1, 2]"),
+    ("[5, 6][(x = 0)]", "0"),
+    ("(x = [5, 6])[0]", "[5, 6]"),
+    ("(x = {a: 1}).a", "{a: 1}"),
+    ("{a: 1}[(x = \"a\")]", "\"a\""),
+    ("if (x = true) then 1 else 2", "true"),
+    ("if true then (x = 1) else 2", "1"),
+    ("if false then 1 else (x = 2)", "2"),
+    ("-(x = 1)", "1"),
+    ("!(x = true)", "true"),
+    ("(x = 3)!", "3"),
+    ("(x = null) ?? 1", "null"),
+    ("null ?? (x = 1)", "1"),
+    ("(x = [1]) via (q => q)", "[1]"),
+    ("[1] via (x = (q => q))", "(q => q)"),
+    ("1 into (x = (q => q))", "(q => q)"),
+    ("(x = [1]) where (q => true)", "[1]"),
+    ("(x = true) && true", "true"),
+    ("true && (x = true)", "true"),
+    ("false || (x = true)", "true"),
+    ("(x = 1) == 1", "1"),
+    ("1 .== (x = 1)", "1"),
+    ("(x = (x = 1))", "1"),
+    ("(y => y)(x = 1)", "1"),
+    ("((x = (y => y)))(1)", "(y => y)"),
+    ("format(\"{}\", (x = 1))", "1"),
+    ("[[[(x = 1)]]]", "1"),
+    ("{a: {b: [(x = 1)]}}", "1"),
+    ("(x = 1) ^ 2 ^ 1", "1"),
+];
 
 /// (setup statements, expression that reaches the function)
 pub const LEAK_HOLDERS: &[(&str, &str)] = &[
@@ -544,6 +589,38 @@ impl Check for History {
                 }
                 if let Some(k) = snapshot(&sess).keys().find(|k| !names_before.contains(k) && !matches!(k.as_str(), "a" | "h")) {
                     fail!("leak:name-visible-at-top-level", "after\n{}\n{}\nthe name {} is bound at top level", setup, bind, k);
+                }
+                Ok(())
+            }
+            Case::SelfNested { context } => {
+                let (rhs, inner) = SELF_NESTED[*context as usize % SELF_NESTED.len()];
+                ctx.label("self-nested-binding");
+                ctx.nontrivial(hash_str(rhs));
+                let reference = Sess::new();
+                reference.set_inputs(&[]);
+                let want = reference.obs(inner);
+                for (head, name) in [("x = ", "x"), ("output x = ", "x")] {
+                    let sess = Sess::new();
+                    sess.set_inputs(&[]);
+                    let src = format!("{}{}", head, rhs);
+                    verif_hooks::arm();
+                    let got = sess.obs(&src);
+                    let log = verif_hooks::take();
+                    if let Some(k) = monitor_violation(&log) {
+                        fail!(format!("self-nested:root-overwrite:{}", rhs), "`{}`: the root environment was overwritten for key {} (insert log {:?})", src, k, log);
+                    }
+                    if got.is_ok() {
+                        fail!(format!("self-nested:accepted:{}", rhs), "`{}` succeeded ({:?}) although its right-hand side had already bound {}", src, got, name);
+                    }
+                    let now = sess.obs(name);
+                    let same = match (&now, &want) {
+                        (Ok(MV::Fn(_)), Ok(MV::Fn(_))) => true,
+                        (Ok(a), Ok(b)) => a.same_nanclass(b),
+                        _ => false,
+                    };
+                    if !same {
+                        fail!(format!("self-nested:value:{}", rhs), "after the refused `{}`, {} reads as {:?}; the inner binding gave it `{}` = {:?}", src, name, now, inner, want);
+                    }
                 }
                 Ok(())
             }
@@ -771,6 +848,8 @@ pub fn run(ctx: &mut Ctx) {
         .flat_map(|h| (0..LEAK_BINDERS.len() as u8).flat_map(move |b| (0..LEAK_NAMES.len() as u8).map(move |n| Case::Leak { holder: h, binder: b, name: n })))
         .collect();
     ctx.run_enum(&History, leaks.into_iter(), false);
+    // D5: the right-hand side binds the name being bound, from inside every kind of sub-expression
+    ctx.run_enum(&History, (0..SELF_NESTED.len() as u8).map(|c| Case::SelfNested { context: c }), false);
     // D3: interactive sessions on a pseudo-terminal vs the same lines in-process
     let mut repl = vec![Case::Repl(vec![0, 1, 8]), Case::Repl(vec![3, 11, 6]), Case::Repl(vec![15, 2, 10, 8]), Case::Repl(vec![12, 13, 14, 5, 9])];
     repl.truncate(if thorough { 4 } else { 4 });
